@@ -402,4 +402,33 @@ def revealBeforeAll (T : Table) (R : Ptr → Rat) (before between : Chart) : Lef
     (res.2.1, res.2.2, st.2.2 + res.1)
   else st
 
+/-- the two-sided protocol: `steps` decides which side reveals next (`true` = one more word of the preceding right state,
+`false` = one more pointer of the following left state; a side that is exhausted is skipped) -/
+def revealSteps (T : Table) (R : Ptr → Rat) (before after : Chart) :
+    List Bool → Nat × Nat × LeftSt × State × Rat → Nat × Nat × LeftSt × State × Rat
+  | [], st => st
+  | true :: rest, (kb, ka, l, r, acc) =>
+    if kb < before.right.length then
+      let res := revealBefore T R { before.right with length := kb + 1 } kb false l r
+      revealSteps T R before after rest (kb + 1, ka, res.2.1, res.2.2, acc + res.1)
+    else revealSteps T R before after rest (kb, ka, l, r, acc)
+  | false :: rest, (kb, ka, l, r, acc) =>
+    if ka < after.left.length then
+      let res := revealAfter T R l r { pointers := after.left.pointers.take (ka + 1), full := false } ka
+      revealSteps T R before after rest (kb, ka + 1, res.2.1, res.2.2, acc + res.1)
+    else revealSteps T R before after rest (kb, ka, l, r, acc)
+
+/-- … followed by the two final calls in the order of `lm/partial_test.cc`: `after.full`, then `reveal_full` -/
+def revealBoth (T : Table) (R : Ptr → Rat) (before between after : Chart) (steps : List Bool) : LeftSt × State × Rat :=
+  let st := revealSteps T R before after steps (0, 0, between.left, between.right, 0)
+  let st1 : LeftSt × State × Rat :=
+    if after.left.full then
+      let res := revealAfter T R st.2.2.1 st.2.2.2.1 { pointers := after.left.pointers, full := true } after.left.length
+      (res.2.1, res.2.2, st.2.2.2.2 + res.1)
+    else (st.2.2.1, st.2.2.2.1, st.2.2.2.2)
+  if before.left.full then
+    let res := revealBefore T R before.right before.right.length true st1.1 st1.2.1
+    (res.2.1, res.2.2, st1.2.2 + res.1)
+  else st1
+
 end KV.Left
